@@ -251,6 +251,42 @@ Definition opt_eqb (a b : option Z) : bool :=
 Definition specb (skip : bool -> frag -> bool) (ds : bool) (fs : list frag) (out : dict Z) : bool :=
   forallb (fun k => opt_eqb (dget k out) (majority skip ds fs k)) (flat_map frag_keys fs ++ dkeys out).
 
+(* ------------------------------------------------------------------ histories: the molecule as a state machine *)
+(* The only state Molecule.get_consensus reads is self.fragments (it iterates `for fragment in self`); /repo HEAD keeps
+   no memo of the answer.  Operations that change self.fragments:
+     add_fragment(f)   appends f when the molecule accepts it (the match test is C06's subject: the verdict is an input)
+     _add_fragment(f)  appends f
+     add_molecule(m)   for fragment in m: self._add_fragment(fragment)
+   OpGet = get_consensus(dove_safe=ds [, with_probs_and_obs=True]); it leaves the state unchanged. *)
+Inductive op : Type :=
+| OpAdd (accepted : bool) (f : frag)
+| OpRaw (f : frag)
+| OpMol (fs : list frag)
+| OpGet (ds probs : bool).
+Definition mstate := list frag.
+Definition op_frags (o : op) : list frag :=
+  match o with
+  | OpAdd true f => [f] | OpAdd false _ => []
+  | OpRaw f => [f] | OpMol fs => fs | OpGet _ _ => []
+  end.
+Definition held (ops : list op) : list frag := flat_map op_frags ops.     (* every fragment added so far, in order *)
+Inductive answer : Type :=
+| AnsCons (r : Res (dict Z))
+| AnsProbs (r : Res (dict Z)) (t : Res table).
+Definition answer_of (skip : bool -> frag -> bool) (ds probs : bool) (st : mstate) : answer :=
+  if probs then AnsProbs (mol_consensus skip ds st) (mol_table skip ds st [])
+  else AnsCons (mol_consensus skip ds st).
+Definition step (skip : bool -> frag -> bool) (st : mstate) (o : op) : mstate * list answer :=
+  match o with
+  | OpGet ds probs => (st, [answer_of skip ds probs st])
+  | _ => (st ++ op_frags o, [])
+  end.
+Fixpoint run_ops (skip : bool -> frag -> bool) (st : mstate) (ops : list op) : list answer :=
+  match ops with
+  | [] => []
+  | o :: rest => snd (step skip st o) ++ run_ops skip (fst (step skip st o)) rest
+  end.
+
 (* ------------------------------------------------------------------ I/O glue *)
 Definition dec_call (v : Val) : Z * Z * Z := (getZ (nthV 0 v), getZ (nthV 1 v), getZ (nthV 2 v)).
 Definition dec_read (v : Val) : option read :=
@@ -274,9 +310,22 @@ Definition enc_out (d : dict Z) : Val := VL (map (fun e => VL [VZ (fst (fst e));
 Definition enc_table (t : table) : Val :=
   VL (map (fun e => VL (VZ (fst (fst e)) :: VZ (snd (fst e)) :: map VZ (vlist (snd e)))) t).
 
+Definition dec_op (v : Val) : op :=
+  let t := getZ (nthV 0 v) in
+  if t =? 0 then OpAdd (getB (nthV 1 v)) (dec_frag (nthV 2 v))
+  else if t =? 1 then OpRaw (dec_frag (nthV 1 v))
+  else if t =? 2 then OpMol (dec_frags (nthV 1 v))
+  else OpGet (getB (nthV 1 v)) (getB (nthV 2 v)).
+Definition enc_answer (a : answer) : Val :=
+  match a with
+  | AnsCons r => VL [enc_res enc_out r]
+  | AnsProbs r t => VL [enc_res enc_out r; enc_res enc_table t]
+  end.
+
 (* input: [dove_safe; fragments]  (mode 2: [[dove_safe; fragments]; out])
    mode 0: repaired model; 1: precondition; 2: specb on an output; 3: /repo HEAD model (D16);
-   4: vote table of the repaired model; 5: pick_best on a list of optional calls; 6: Fragment.get_consensus *)
+   4: vote table of the repaired model; 5: pick_best on a list of optional calls; 6: Fragment.get_consensus;
+   7 / 8: a history (list of operations) through the repaired / HEAD molecule state machine, one answer per OpGet *)
 Definition run_C13 (mode : Z) (v : Val) : Val :=
   match mode with
   | 0 => enc_res enc_out (mol_consensus skip_fixed (getB (nthV 0 v)) (dec_frags (nthV 1 v)))
@@ -289,5 +338,7 @@ Definition run_C13 (mode : Z) (v : Val) : Val :=
                                  (getL v)) in VL [VZ (fst r); VZ (snd r)]
   | 6 => enc_res (fun d : dict call => VL (map (fun e => VL [VZ (fst (fst e)); VZ (snd (fst e)); VZ (fst (snd e)); VZ (snd (snd e))]) d))
                  (frag_consensus (getB (nthV 0 v)) (dec_frag (nthV 1 v)))
+  | 7 => VL (map enc_answer (run_ops skip_fixed [] (map dec_op (getL v))))
+  | 8 => VL (map enc_answer (run_ops skip_head [] (map dec_op (getL v))))
   | _ => bad
   end.
